@@ -30,7 +30,7 @@ func zzStore(nNodes int) (*fakeapi.Client, *datadoghqv1alpha1.ExtendedDaemonSet,
 
 // zzStoredDS returns the stored ExtendedDaemonSet (the store holds copies the harness may edit
 // before the reconcile).
-func zzSymbolicPods(c *fakeapi.Client, nNodes, maxPods int) {
+func zzSymbolicPods(c *fakeapi.Client, nNodes, maxPods int, rich bool) {
 	nPods := nondet.Int("nPods", 0, maxPods)
 	for j := 0; j < maxPods; j++ {
 		if j >= nPods {
@@ -45,7 +45,7 @@ func zzSymbolicPods(c *fakeapi.Client, nNodes, maxPods int) {
 			}
 		}
 		binding := 0
-		if nondet.Bool(l + ".byAffinity") {
+		if rich && nondet.Bool(l+".byAffinity") {
 			binding = 1
 		}
 		rsName, hash := zzRSName, zzHashNew
@@ -53,7 +53,7 @@ func zzSymbolicPods(c *fakeapi.Client, nNodes, maxPods int) {
 			rsName, hash = zzOldRS, zzHashOld
 		}
 		p := zzPod(l, nodeName, rsName, hash, binding, zzPhase(l+".phase"), !nondet.Thorough() || nondet.Bool(l+".ready"), nondet.Base().Add(-60*1e9))
-		if nondet.Bool(l + ".terminating") {
+		if rich && nondet.Bool(l+".terminating") {
 			t := metav1.NewTime(nondet.Base())
 			p.DeletionTimestamp = &t
 		}
@@ -71,7 +71,7 @@ func ZZ_C01_reconcile() {
 	}
 	c, ds, rsNew, _ := zzStore(nNodes)
 	ds.Status.ActiveReplicaSet = rsNew.Name
-	zzSymbolicPods(c, nNodes, maxPods)
+	zzSymbolicPods(c, nNodes, maxPods, true)
 	before := make([]*corev1.Pod, len(c.Pods))
 	for i, p := range c.Pods {
 		before[i] = p.DeepCopy()
